@@ -5,8 +5,10 @@ Started by harness/c20_driver.py with `/venv/bin/python c20_child.py [--oneshot]
 PYTHONPATH=<repo>.  Protocol: one JSON job per line on stdin, one JSON answer per line
 on stdout.  Every job gets its own temp sandbox (created and removed here), its own
 environment variables and cwd, and a fresh Config() object; `--oneshot` handles a single
-job, sets environment and cwd BEFORE pypyr.config is imported and uses the module-level
-singleton `pypyr.config.config`, exactly as pypyr.cli.main does.
+job and uses the module-level singleton `pypyr.config.config`, exactly as pypyr.cli.main does.
+A job has two environments: `import_env` (default: the same as `env`), in force when the Config
+object is constructed / pypyr.config is imported, and `env`, in force (with the job's cwd) when
+init() runs.
 
 Nothing here knows about the Coq model: it only writes files, calls the code, and dumps.
 """
@@ -103,20 +105,25 @@ def unreal(text, root):
     return text.replace(root, SB)
 
 
-def setup(job):
-    """Create the sandbox, environment, cwd and files of one job. Returns the root."""
-    root = os.path.realpath(tempfile.mkdtemp(prefix='c20_'))
+def apply_env(env, root):
+    """Make the relevant part of os.environ exactly `env` ("/SB" = sandbox root)."""
     for k in list(os.environ):
         if k.startswith(ENV_PREFIXES):
             del os.environ[k]
     os.environ['HOME'] = root + '/home'
-    for k, v in job['env'].items():
+    for k, v in env.items():
         os.environ[k] = v.replace(SB, root)
+
+
+def setup(job):
+    """Create the sandbox and the files of one job (no environment yet). Returns the root."""
+    root = os.path.realpath(tempfile.mkdtemp(prefix='c20_'))
     os.makedirs(root + '/home')
     os.makedirs(root + '/cwd')
-    os.chdir(root + '/cwd')
     for f in job['files']:
         p = real(f['path'], root)
+        if not os.path.isabs(p):
+            p = root + '/cwd/' + p
         d = os.path.dirname(p)
         if d:
             os.makedirs(d, exist_ok=True)
@@ -160,15 +167,22 @@ def dump(c, root):
 
 
 def run(job, singleton=False):
+    """Two moments, as in a real process: the Config object is CONSTRUCTED under
+    job['import_env'] (for the module singleton that is `import pypyr.config`; default: the
+    same environment as at init time) and init() then RUNS under job['env'] and the job's cwd."""
     root = setup(job)
     try:
+        apply_env(job.get('import_env', job['env']), root)
+        os.chdir('/')
         import pypyr.config
         from pypyr.config import Config
+        c = pypyr.config.config if singleton else Config()
+        apply_env(job['env'], root)
+        os.chdir(root + '/cwd')
         out = {'parse_bad': parse_check(job),
                'all_props': sorted(Config.all_writable_props),
                'dict_props': sorted(Config.dict_props)}
-        out['defaults'] = dump(Config(), root)
-        c = pypyr.config.config if singleton else Config()
+        out['defaults'] = dump(c, root)          # the object as it is just before init()
         try:
             c.init()
             out['res'] = ['ok', dump(c, root)]
